@@ -166,6 +166,16 @@ CLAIMS = {
              "swap and oracle. NOT decided: 'can always exit from every reachable state' (liveness; depends on arithmetic over histories).",
         technique="cross-contract call/query graph closure over MIR-extracted message constructions",
         ref="6/C09"),
+    "C19": dict(
+        text="Decides the structural clauses: UpdateGlobalIndex emits one reward withdrawal per delegation of the hub, then SwapToRewardDenom, "
+             "then DispatchRewards to the configured dispatcher on every path; the two bonded totals are paired with the right State fields; "
+             "SetWithdrawAddress accompanies every change of the dispatcher address; wire agreement (variant tag accepted, required fields "
+             "present, unknown fields only where ignored) on every cross-contract edge whose payload type differs from the receiver's enum - "
+             "read from the derived serde impls in MIR, a compatibility no per-contract mock test exercises; zero-coin transfers in the "
+             "delivery transaction (3 genuine dispatcher sites are known findings shared with C17). NOT decided: the end-state accounting "
+             "equalities (numeric).",
+        technique="message-sequence extraction + cross-contract wire-schema diff of derived serde impls + guarded-site reachability",
+        ref="6/C19"),
 }
 
 NA = {
